@@ -223,7 +223,7 @@ Complete == agenda = <<>>
 ----------------------------------------------------------------------------
 (* prefix tokens -> tree *)
 Arity(tk) ==
-  CASE tk.k \in {"DS", "Const", "Str", "Var"} -> 0
+  CASE tk.k \in {"DS", "Const", "Str", "Var", "Lit"} -> 0
     [] tk.k \in {"First", "Count", "Sum", "Min", "Max", "Coll", "Single", "Un", "TupIdx", "DictGet", "Meta"} -> 1
     [] tk.k \in {"Select", "SelectMany", "Where", "Range", "Idx", "Bin", "Cmp"} -> 2
     [] tk.k \in {"Aggregate", "If"} -> 3
